@@ -1,9 +1,23 @@
+/-
+  C10 — Bitswap accepts Shwap blocks only when they verify against the DAH.   PROPERTY THEOREMS ONLY.
+
+  Model: `Lumina/Model/ShwapHasher.lean` (`multihash` = `ShwapMultihasher::hash`, `hashBlock` = the macro body,
+  `getBlockContainer`), over group C's CID/identifier model (`ShwapId`) and group D3's container decoders/verifiers
+  (`Decoders`: `sampleFromRaw/sampleVerify`, `rowFromRaw/rowVerify`, `rndFromRaw/rndVerify`).
+  Spec: `Lumina/Spec/C10.lean`.  Parameters: prost decoding of the block and of the containers, the leopard codec,
+  the hash, the header store (height ↦ DAH).
+-/
 import Lumina.Gen.C10
-import Lumina.Model.ShwapHasher
-import Lumina.Spec.C10
+import Lumina.Proofs.ShwapHasher
+import Lumina.Proofs.ShwapSound
+
 
 namespace Lumina.Props.C10
+open Lumina.Util Lumina.Model.Nmt Lumina.Model.Eds Lumina.Model.ShwapId Lumina.Model.Decoders Lumina.Model.ShwapHasher
+open Lumina.Proofs.ShwapHasher Lumina.Proofs.ShwapSound Lumina.Proofs.Nmt Lumina.Proofs.Eds
+open Lumina.Spec.C10 (specHash specContainer)
 
+/-- the multihash codes and codecs the hasher dispatches on, and the multihash size of bitswap, re-read from /repo -/
 theorem consts_eq :
     Lumina.Gen.C10.ROW_ID_MULTIHASH_CODE = Lumina.Gen.C15.ROW_ID_MULTIHASH_CODE ∧
     Lumina.Gen.C10.SAMPLE_ID_MULTIHASH_CODE = Lumina.Gen.C15.SAMPLE_ID_MULTIHASH_CODE ∧
@@ -12,5 +26,184 @@ theorem consts_eq :
     Lumina.Gen.C10.SAMPLE_ID_CODEC = Lumina.Gen.C15.SAMPLE_ID_CODEC ∧
     Lumina.Gen.C10.ROW_NAMESPACE_DATA_CODEC = Lumina.Gen.C15.ROW_NAMESPACE_DATA_CODEC ∧
     Lumina.Gen.C10.MAX_MH_SIZE = 64 := by decide
+
+/-- an unknown multihash code is reported as such, whatever the input -/
+theorem unknown_code (H : HashFn) (P : Params) (store : Nat → Option Dah) (code : Nat) (input : Bytes)
+    (hc : knownCode code = false) : multihash H P store code input = .error .unknownCode := by
+  unfold knownCode at hc
+  simp only [Bool.or_eq_false_iff, decide_eq_false_iff_not] at hc
+  unfold multihash
+  rw [if_neg hc.1.1, if_neg hc.1.2, if_neg hc.2]
+
+/-- **`Ok(h)` iff everything the property lists holds, and then `h` is the identifier hash** — for every input, every
+    code, every store, every protobuf/codec behaviour, every hash. -/
+theorem mh_ok_iff (H : HashFn) (P : Params) (store : Nat → Option Dah) (code : Nat) (input : Bytes) (h : Bytes) :
+    multihash H P store code input = .ok h ↔ (knownCode code = true ∧ allowed H P store code input = some h) := by
+  by_cases hk : knownCode code = true
+  · have key : ∀ {Id C : Type} (K : Kind Id C), multihash H P store code input = hashBlock K P.decodeBlock store input →
+        allowed H P store code input = K.allowed P.decodeBlock store input →
+        (multihash H P store code input = .ok h ↔ (knownCode code = true ∧ allowed H P store code input = some h)) := by
+      intro Id C K e1 e2
+      rw [e1, e2, hk]
+      rcases hashBlock_cases K P.decodeBlock store input with ⟨x, a, b⟩ | ⟨a, b⟩ | ⟨a, b⟩ <;> simp [a, b]
+    rcases dispatch H P store code input hk with ⟨e1, e2⟩ | ⟨e1, e2⟩ | ⟨e1, e2⟩
+    · exact key _ e1 e2
+    · exact key _ e1 e2
+    · exact key _ e1 e2
+  · have hk' : knownCode code = false := by simpa using hk
+    rw [unknown_code H P store code input hk', hk']
+    simp
+
+/-- **The property, as the spec checker, for every input**: unless the call panics (the containers' decoders and
+    verifiers are shown panic-free by C16, not here), the observed outcome is exactly what the property allows —
+    `UnknownMultihashCode` for an unknown code; the identifier hash iff identifier, container, stored header and
+    verification all hold; an error otherwise. -/
+theorem multihash_spec (H : HashFn) (P : Params) (store : Nat → Option Dah) (code : Nat) (input : Bytes)
+    (hnp : multihash H P store code input ≠ .error .panic) :
+    specHash (knownCode code) (allowed H P store code input) (obsOf (multihash H P store code input)) = true := by
+  by_cases hk : knownCode code = true
+  · have key : ∀ {Id C : Type} (K : Kind Id C), multihash H P store code input = hashBlock K P.decodeBlock store input →
+        allowed H P store code input = K.allowed P.decodeBlock store input →
+        specHash true (allowed H P store code input) (obsOf (multihash H P store code input)) = true := by
+      intro Id C K e1 e2
+      rw [e1] at hnp ⊢
+      rw [e2]
+      rcases hashBlock_cases K P.decodeBlock store input with ⟨x, a, b⟩ | ⟨a, b⟩ | ⟨a, _⟩
+      · simp [a, b, specHash, obsOf]
+      · simp [a, b, specHash, obsOf]
+      · exact (hnp a).elim
+    rw [hk]
+    rcases dispatch H P store code input hk with ⟨e1, e2⟩ | ⟨e1, e2⟩ | ⟨e1, e2⟩
+    · exact key _ e1 e2
+    · exact key _ e1 e2
+    · exact key _ e1 e2
+  · have hk' : knownCode code = false := by simpa using hk
+    rw [hk', unknown_code H P store code input hk']
+    rfl
+
+/-- non-vacuity of `multihash_spec`'s hypothesis: calls that do not panic exist for every parameter choice (e.g. the
+    empty input under a known code is a plain error); accepted honest blocks occur on every correspondence run -/
+example (H : HashFn) (P : Params) (store : Nat → Option Dah) (hb : P.decodeBlock [] = none) :
+    multihash H P store Lumina.Gen.C15.ROW_ID_MULTIHASH_CODE [] ≠ .error .panic := by
+  simp [multihash, hashBlock, hb]
+
+/-- `get_block_container` hands the container out exactly when the block's CID equals the expected one -/
+theorem container_spec (db : Bytes → Option (Bytes × Bytes)) (expected : Cid) (block : Bytes) :
+    specContainer (db block) Cid.read expected (getBlockContainer db expected block) = true := by
+  unfold specContainer getBlockContainer
+  cases hdb : db block with
+  | none => simp
+  | some b =>
+    obtain ⟨c, k⟩ := b
+    simp only
+    cases hc : Cid.read c with
+    | none => simp
+    | some cid =>
+      by_cases he : cid = expected
+      · simp [he]
+      · simp [he]
+
+/-- **Inherited soundness (C04) through bitswap**, idealised hash: when every stored header's DAH is the DAH of a
+    square (`sq h`, width a power of two), a SAMPLE block for which the multihasher yields a hash carries exactly the
+    share at the row and column named by the block's own CID, in the square of the header stored at the CID's height —
+    whatever bytes the peer sent, whichever axis the proof uses. -/
+theorem mh_sample_sound {H : HashFn} (hk : HashOK H) (P : Params) (store : Nat → Option Dah) (sq : Nat → Eds) (kk : Nat → Nat)
+    (hstore : ∀ h d, store h = some d → Dah.ofEds H (sq h) = .ok d ∧ (sq h).width = 2 ^ kk h ∧
+      ∀ sh ∈ (sq h).shares, NS_SIZE ≤ sh.data.length)
+    (input hsh : Bytes) (hok : multihash H P store Lumina.Gen.C15.SAMPLE_ID_MULTIHASH_CODE input = .ok hsh) :
+    ∃ cidB cont cid id raw s, P.decodeBlock input = some (cidB, cont) ∧ Cid.read cidB = some cid ∧
+      SampleId.ofCid cid = .ok id ∧ P.decodeSample cont = some raw ∧
+      sampleFromRaw id.row.index id.column raw = .ok s ∧ hsh = mhBytes id.toCid ∧
+      ∃ sh, (sq id.row.eds.height).share? id.row.index id.column = some sh ∧ sh.data = s.share.data := by
+  have hm : multihash H P store Lumina.Gen.C15.SAMPLE_ID_MULTIHASH_CODE input =
+      hashBlock (sampleKind H P) P.decodeBlock store input := by
+    unfold multihash
+    rw [if_neg (by decide), if_neg (by decide), if_pos rfl]
+  rw [hm] at hok
+  unfold hashBlock at hok
+  cases hdb : P.decodeBlock input with
+  | none => simp [hdb] at hok
+  | some blk =>
+    obtain ⟨cidB, cont⟩ := blk
+    simp only [hdb] at hok
+    cases hcid : Cid.read cidB with
+    | none => simp [hcid] at hok
+    | some cid =>
+      simp only [hcid] at hok
+      cases hid : (sampleKind H P).ofCid cid with
+      | error er => simp [hid] at hok
+      | ok id =>
+        simp only [hid] at hok
+        cases hdec : (sampleKind H P).decode id cont with
+        | err => simp [hdec] at hok
+        | panic st => simp [hdec] at hok
+        | ok s =>
+          simp only [hdec] at hok
+          cases hst : store ((sampleKind H P).height id) with
+          | none => simp [hst] at hok
+          | some dah =>
+            simp only [hst] at hok
+            cases hv : (sampleKind H P).verify s id dah with
+            | err => simp [hv] at hok
+            | panic st => simp [hv] at hok
+            | ok u =>
+              simp only [hv, Except.ok.injEq] at hok
+              -- unpack the container decoding
+              simp only [sampleKind] at hdec hst hv hid
+              cases hraw : P.decodeSample cont with
+              | none => simp [hraw] at hdec
+              | some raw =>
+                simp only [hraw] at hdec
+                obtain ⟨hlen, hwf⟩ := sampleFromRaw_ok hdec
+                obtain ⟨hd, hw, hsz⟩ := hstore _ _ hst
+                obtain ⟨hrl, hcl, hrows, hcols⟩ := dah_ofEds_roots hd
+                refine ⟨cidB, cont, cid, id, raw, s, rfl, hcid, hid, hraw, hdec, hok.symm, ?_⟩
+                -- unpack the verification
+                unfold sampleVerify sampleVerifyWith at hv
+                cases hr : dah.rowRoot? id.row.index with
+                | none => simp [hr] at hv
+                | some rowRoot =>
+                  cases hc : dah.colRoot? id.column with
+                  | none => simp [hr, hc] at hv
+                  | some colRoot =>
+                    simp only [hr, hc] at hv
+                    have hrow : id.row.index < (sq id.row.eds.height).width := by
+                      unfold Dah.rowRoot? at hr
+                      have := (List.getElem?_eq_some_iff.mp hr).1; omega
+                    have hcol : id.column < (sq id.row.eds.height).width := by
+                      unfold Dah.colRoot? at hc
+                      have := (List.getElem?_eq_some_iff.mp hc).1; omega
+                    obtain ⟨rr, hrr1, hrr2⟩ := hrows _ hrow
+                    obtain ⟨cr, hcr1, hcr2⟩ := hcols _ hcol
+                    have e1 : rr = rowRoot := by unfold Dah.rowRoot? at hr; rw [hrr2] at hr; injection hr
+                    have e2 : cr = colRoot := by unfold Dah.colRoot? at hc; rw [hcr2] at hc; injection hc
+                    subst e1; subst e2
+                    have hss : NS_SIZE ≤ s.share.data.length := by rw [hlen]; decide
+                    have vr_of : ∀ root, ofNmt (safeVerifyRange H s.proof root [s.share.data] s.share.ns) = .ok () →
+                        verifyRange H s.proof root [s.share.data] s.share.ns = .ok () := by
+                      intro root h
+                      unfold safeVerifyRange at h
+                      split at h
+                      · simp [ofNmt] at h
+                      · cases hvr : verifyRange H s.proof root [s.share.data] s.share.ns with
+                        | ok u => rfl
+                        | error er =>
+                          rw [hvr] at h
+                          cases er <;> simp [ofNmt] at h
+                    cases hp : s.proofType with
+                    | row =>
+                      simp only [hp] at hv
+                      split at hv
+                      · cases hv
+                      · rename_i hstart
+                        have hst' : s.proof.start = id.column := by simpa using hstart
+                        exact axis_leaf_bound' hk hw hsz hrr1 hcol hss hwf (vr_of _ hv) hst'
+                    | col =>
+                      simp only [hp] at hv
+                      split at hv
+                      · cases hv
+                      · rename_i hstart
+                        have hst' : s.proof.start = id.row.index := by simpa using hstart
+                        exact axis_leaf_bound' hk hw hsz hcr1 hrow hss hwf (vr_of _ hv) hst'
 
 end Lumina.Props.C10
